@@ -1,0 +1,23 @@
+//go:build verif
+// +build verif
+
+package p2p
+
+import "net"
+
+// Hooks for the verification harness (/verif). Built only with -tags verif.
+
+// VerifBase can be embedded in a test double so that it satisfies P2PInterface
+// (the interface has an unexported method).
+type VerifBase struct{}
+
+func (VerifBase) numOfClient() (int, int) { return 0, 0 }
+
+// VerifReadFrom exposes the frame reader.
+func VerifReadFrom(conn net.Conn) ([]byte, error) { return readFrom(conn) }
+
+// VerifWriteTo exposes the frame writer.
+func VerifWriteTo(b []byte, conn net.Conn) error { return writeTo(b, conn) }
+
+// VerifMsgSizeLimit is the frame size bound.
+const VerifMsgSizeLimit = msgSizeLimit
